@@ -232,12 +232,21 @@ def main():
   k = 0
   while k < n_models:
     deep = rng.random() < 0.3
+    # every 6th model: fixed-output-range ops (SOFTMAX / LOGISTIC / TANH) feeding
+    # further quantized ops, under 8-bit SYMMETRIC activations
+    fixed = (k % 6 == 4)
     mb, info = gg.gen_model(rng, n_subgraphs=1 if rng.random() < 0.8 else 2,
                             max_ops=rng.choice([6, 8, 10]) if deep else rng.choice([2, 3, 5]),
-                            op_weights=(['FULLY_CONNECTED'] * 4 + ['TANH', 'ADD', 'MUL']) if deep else None)
+                            op_weights=(['SOFTMAX', 'LOGISTIC', 'TANH'] * 2 + ['FULLY_CONNECTED', 'ADD', 'RESHAPE'])
+                            if fixed else ((['FULLY_CONNECTED'] * 4 + ['TANH', 'ADD', 'MUL']) if deep else None))
     m_in = og.read(mb)
     qt = quantizer.Quantizer(bytearray(mb))
-    if rng.random() < 0.6:
+    if fixed:
+      desc = gr.apply_rules(qt, [('.*', '*', ncfg['a8sw8'][0], 'a8sw8')])
+      if not desc:
+        continue
+      dist['directed:fixed-range-symmetric'] += 1
+    elif rng.random() < 0.6:
       desc = rng.choice(['default_a8w8_recipe', 'default_a16w8_recipe'])
       qt.load_quantization_recipe(copy.deepcopy(ship[desc]))
     else:
